@@ -141,6 +141,18 @@ def q_joiner(q, who, conn):
     conn.close()
 
 
+def nested_scenario(conn, method, how, si):
+    from harness import procs
+    try:
+        obs = procs.scenario(method, tuple(how), procs.SCHEDULES[si])
+    except Exception as exc:      # noqa
+        st = {'method': method, 'how': list(how), 'phase': 'new'}
+        obs = [{'act': {'e': 'init'}, 'state': st},
+               {'act': {'e': 'harness_error', 'what': type(exc).__name__}, 'state': st}]
+    conn.send(obs)
+    conn.close()
+
+
 def mgr_child(conn_in, conn_out):
     """holds a proxy received from the parent (pickled through a pipe, rebuilt here);
     operates on it on request; drops it when told"""
@@ -159,6 +171,51 @@ def mgr_child(conn_in, conn_out):
             conn_out.send('dropped')
             break
     conn_in.recv()          # stay alive until released
+
+
+def mgr_child_arg(proxy, conn_in, conn_out):
+    """like mgr_child, but the proxy arrives as an argument of the process (inherited / rebuilt
+    while the process is bootstrapped)"""
+    conn_out.send('have')
+    while True:
+        cmd = conn_in.recv()
+        if cmd == 'append':
+            try:
+                proxy.append('from-child')
+                conn_out.send('ok')
+            except Exception as exc:      # noqa
+                conn_out.send('error:' + type(exc).__name__)
+        elif cmd == 'drop':
+            import gc
+            import billiard
+            me = billiard.current_process()     # the process object's argument tuple holds the proxy too
+            for attr, empty in (('_args', ()), ('_kwargs', {})):
+                if hasattr(me, attr):
+                    setattr(me, attr, empty)
+            del proxy
+            gc.collect()
+            conn_out.send('dropped')
+            break
+    conn_in.recv()
+
+
+class Inner:
+    def __init__(self):
+        self.n = 0
+
+    def bump(self):
+        self.n += 1
+        return self.n
+
+
+class Holder:
+    """hands out one and the same inner object every time"""
+
+    def __init__(self):
+        self.inner = Inner()
+
+    def child(self):
+        return self.inner
 
 
 def mgr_appender(lst, d, val, lock, n, who):
